@@ -1456,4 +1456,130 @@ theorem emptyDataRecords_framing (rid : Nat) (hid : rid < 65536) (tail : Bytes) 
         have h2 : (typeStdout != typeStderr) = true := by decide
         simp [h1, h2]
 
+/-! #### the contract of the `bufio.Writer` model the request side relies on
+
+`Holds t rid w s`: what has been handed to the writer so far is the byte string `s`; it sits on the
+wire as whole records of 1..maxWrite content bytes, followed by the buffered tail.  Every operation
+of the model keeps this, whatever the sizes involved and wherever the flushes fall: `Write` and
+`WriteString` accept all of `p` (the Go calls return `len(p)`), and flush boundaries never change
+the concatenated bytes. -/
+
+def Holds (t rid : Nat) (w : BufW) (s : Bytes) : Prop :=
+  ∃ chunks : List Bytes, w.wire = recordsOf t rid chunks ∧
+    (∀ c ∈ chunks, c ≠ [] ∧ c.length ≤ maxWrite) ∧ w.buf.length ≤ maxWrite ∧ chunks.flatten ++ w.buf = s
+
+theorem holds_empty (t rid : Nat) : Holds t rid {} [] :=
+  ⟨[], by simp [recordsOf], by simp, by simp, by simp⟩
+
+theorem flush_holds {t rid : Nat} {w : BufW} {s : Bytes} (h : Holds t rid w s) :
+    Holds t rid (BufW.flush t rid w) s ∧ (BufW.flush t rid w).buf = [] := by
+  obtain ⟨chunks, hw, hall, hb, hs⟩ := h
+  by_cases h0 : w.buf.length = 0
+  · have hfl : BufW.flush t rid w = w := by unfold BufW.flush; simp only [h0, if_true]
+    rw [hfl]
+    exact ⟨⟨chunks, hw, hall, hb, hs⟩, List.length_eq_zero_iff.mp h0⟩
+  · have hfl : BufW.flush t rid w = { wire := w.wire ++ streamWrite t rid w.buf, buf := [] } := by
+      unfold BufW.flush; simp only [h0, if_false]
+    rw [hfl]
+    have hne : w.buf ≠ [] := fun he => h0 (by rw [he]; rfl)
+    refine ⟨⟨chunks ++ [w.buf], ?_, ?_, ?_, ?_⟩, rfl⟩
+    · show w.wire ++ streamWrite t rid w.buf = _
+      rw [hw, recordsOf_append, streamWrite_single t rid w.buf hne hb]
+      simp [recordsOf]
+    · intro c hc
+      rcases List.mem_append.mp hc with hc | hc
+      · exact hall c hc
+      · have : c = w.buf := by simpa using hc
+        subst this
+        exact ⟨hne, hb⟩
+    · show ([] : Bytes).length ≤ maxWrite
+      simp
+    · show (chunks ++ [w.buf]).flatten ++ [] = s
+      simpa using hs
+
+/-- a direct `streamWriter.Write(p)` of any size appends whole records whose contents are `p` -/
+theorem streamWrite_holds {t rid : Nat} {w : BufW} {s : Bytes} (p : Bytes) (h : Holds t rid w s)
+    (hb : w.buf = []) : Holds t rid { w with wire := w.wire ++ streamWrite t rid p } (s ++ p) := by
+  obtain ⟨chunks, hw, hall, _, hs⟩ := h
+  obtain ⟨h1, h2⟩ := chunkFuel_spec (p.length + 1) p (Nat.lt_succ_self _)
+  refine ⟨chunks ++ chunkFuel (p.length + 1) p, ?_, ?_, by rw [hb]; simp, ?_⟩
+  · show w.wire ++ streamWrite t rid p = _
+    rw [hw, recordsOf_append]
+    unfold streamWrite
+    rw [streamWriteFuel_eq]
+  · intro c hc
+    rcases List.mem_append.mp hc with hc | hc
+    · exact hall c hc
+    · exact h2 c hc
+  · show (chunks ++ chunkFuel (p.length + 1) p).flatten ++ w.buf = s ++ p
+    rw [hb] at hs ⊢
+    simp only [List.append_nil] at hs ⊢
+    rw [List.flatten_append, h1, hs]
+
+theorem writeFuel_holds (t rid : Nat) (isS : Bool) : ∀ (f : Nat) (w : BufW) (p s : Bytes),
+    Holds t rid w s → p.length + (if w.avail = 0 then 1 else 0) + 1 ≤ f →
+    Holds t rid (BufW.writeFuel t rid isS f w p) (s ++ p) := by
+  intro f
+  induction f with
+  | zero => intro w p s _ h; omega
+  | succ f ih =>
+    intro w p s hH hf
+    have hmw : maxWrite = 65500 := rfl
+    unfold BufW.writeFuel
+    by_cases hbig : p.length > w.avail
+    · simp only [hbig, if_true]
+      by_cases hdirect : w.buf.length = 0 ∧ (!isS) = true
+      · simp only [hdirect, and_self, if_true]
+        exact streamWrite_holds p hH (List.length_eq_zero_iff.mp hdirect.1)
+      · simp only [hdirect, if_false]
+        obtain ⟨chunks, hw, hall, hb, hs⟩ := hH
+        have havail : w.avail ≤ p.length := by omega
+        have hfill : Holds t rid { w with buf := w.buf ++ p.take w.avail } (s ++ p.take w.avail) := by
+          refine ⟨chunks, hw, hall, ?_, ?_⟩
+          · simp only [List.length_append, List.length_take]
+            unfold BufW.avail at havail ⊢
+            omega
+          · show chunks.flatten ++ (w.buf ++ p.take w.avail) = s ++ p.take w.avail
+            rw [← List.append_assoc, hs]
+        obtain ⟨hfl, hbuf⟩ := flush_holds hfill
+        have := ih (BufW.flush t rid { w with buf := w.buf ++ p.take w.avail }) (p.drop w.avail)
+          (s ++ p.take w.avail) hfl (by
+            have ha : (BufW.flush t rid { w with buf := w.buf ++ p.take w.avail }).avail ≠ 0 := by
+              have e : (BufW.flush t rid { w with buf := w.buf ++ p.take w.avail }).avail =
+                  maxWrite - (BufW.flush t rid { w with buf := w.buf ++ p.take w.avail }).buf.length := rfl
+              rw [e, hbuf]; simp; omega
+            simp only [ha, if_false, List.length_drop]
+            by_cases h0 : w.avail = 0
+            · simp only [h0, if_true] at hf; omega
+            · simp only [h0, if_false] at hf; omega)
+        rw [List.append_assoc, List.take_append_drop] at this
+        exact this
+    · simp only [hbig, if_false]
+      obtain ⟨chunks, hw, hall, hb, hs⟩ := hH
+      refine ⟨chunks, hw, hall, ?_, ?_⟩
+      · simp only [List.length_append]
+        unfold BufW.avail at hbig
+        omega
+      · show chunks.flatten ++ (w.buf ++ p) = s ++ p
+        rw [← List.append_assoc, hs]
+
+/-- `Write(p)` accepts all of `p`, for every `p` and every state -/
+theorem write_holds {t rid : Nat} {w : BufW} {s : Bytes} (p : Bytes) (h : Holds t rid w s) :
+    Holds t rid (BufW.write t rid w p) (s ++ p) :=
+  writeFuel_holds t rid false _ w p s h (by split <;> omega)
+
+/-- `WriteString(p)` accepts all of `p`, for every `p` and every state -/
+theorem writeString_holds {t rid : Nat} {w : BufW} {s : Bytes} (p : Bytes) (h : Holds t rid w s) :
+    Holds t rid (BufW.writeString t rid w p) (s ++ p) :=
+  writeFuel_holds t rid true _ w p s h (by split <;> omega)
+
+/-- closing: the wire is whole records carrying exactly `s`, then exactly one empty record -/
+theorem close_holds {t rid : Nat} {w : BufW} {s : Bytes} (h : Holds t rid w s) :
+    ∃ chunks : List Bytes, BufW.close t rid w = recordsOf t rid chunks ++ streamClose t rid ∧
+      (∀ c ∈ chunks, c ≠ [] ∧ c.length ≤ maxWrite) ∧ chunks.flatten = s := by
+  obtain ⟨⟨chunks, hw, hall, _, hs⟩, hb⟩ := flush_holds h
+  refine ⟨chunks, by unfold BufW.close; rw [hw], hall, ?_⟩
+  rw [hb] at hs
+  simpa using hs
+
 end Casket.FCGISpec
